@@ -119,13 +119,52 @@ pub fn inject_hook(core: &mut Core, ni: usize, t: u64, st: &mut InjState) {
                         }
                     }
                 }
-                desc = format!("{} connection statuses (session has {np} players)", sts.len());
+                // the packet is rejected as a whole: hostile gossip in the (wrongly sized) status list
+                // must be ignored as well
+                let hostile = r.chance(0.5);
+                if hostile {
+                    for c in sts.iter_mut() {
+                        c.disconnected = r.chance(0.5);
+                        c.last_frame = r.below(50) as i32;
+                    }
+                }
+                desc = format!("{} connection statuses (session has {np} players){}", sts.len(), if hostile { ", hostile flags" } else { "" });
+            }
+            if let WBody::Input { ack, .. } = &mut m.body {
+                if r.chance(0.4) {
+                    *ack += 1 + r.below(1000) as i32;
+                    desc.push_str(", ack ahead");
+                }
             }
         }
         K_NEGSTART => {
             if let WBody::Input { start, .. } = &mut m.body {
                 *start = -(1 + r.below(1000) as i32) - if r.chance(0.1) { i32::MAX / 2 } else { 0 };
                 desc = format!("start frame {start}");
+            }
+            // a packet with a negative start frame is dropped as a whole: whatever else it carries
+            // (a disconnect request, gossip about dropped players, an ack ahead of the truth) must
+            // have no effect either
+            if let WBody::Input { st: sts, disc, ack, .. } = &mut m.body {
+                match r.below(5) {
+                    0 => {
+                        *disc = true;
+                        desc.push_str(" + disconnect_requested");
+                    }
+                    1 => {
+                        let i = r.below(sts.len().max(1) as u64) as usize;
+                        if let Some(c) = sts.get_mut(i) {
+                            c.disconnected = true;
+                            c.last_frame = r.below(30) as i32;
+                            desc.push_str(&format!(" + status[{i}] disconnected at {}", c.last_frame));
+                        }
+                    }
+                    2 => {
+                        *ack += 1 + r.below(1000) as i32;
+                        desc.push_str(" + ack ahead");
+                    }
+                    _ => {}
+                }
             }
         }
         K_UNKNOWN_ADDR => {
@@ -651,7 +690,7 @@ pub fn check(ctx: &Ctx) -> i32 {
     extra.insert("classes".into(), json!(CLASS_NAMES));
     let meta = Meta {
         level: "fault_enumeration",
-        rule: "forged packets are built by mutating a copy of the last genuine packet already delivered on the victim's link (so that ack and gossip fields are stale and idempotent) and are put on the wire at the victim's ticks: wrong number of connection statuses (0, n-1, n+1, n+1000), negative start frame, payloads that are random bytes / exhaustive byte strings of length <= 2 / structure-aware mutations of the genuine payload up to 4 KiB / run-length bombs / valid encodings of frames of the wrong size, any packet type from an unknown address, any packet type with a foreign magic. Payloads that the harness's own decoder labels as well-formed spoofs (some frame has exactly the expected size) are not injected (no authentication: outside the property). Protocol states: Running on clean and lossy links (2-3 peers, 1-2 players per peer, windows 0/1/2/8), during the handshake (forged from scratch), after the sender was dropped (incl. exact replays), towards a spectator, and a flood of foreign packets while the real remote is silent; plus garbage/truncated/bit-flipped/length-bomb/oversize datagrams sent over loopback to the library's own UdpNonBlockingSocket (no panic, < 4 MiB allocated per receive call, well-formed messages still delivered). Every campaign runs in a child process under the counting allocator. Verdict: no panic/abort/refused allocation, peak live growth per call within the codec bound; C01/C03/C06 oracles keep holding; against the same scenario without injection: classes rejected before processing must leave request traces, events (with timestamps, per address), errors and states identical; payload classes (which legitimately refresh a resend timer, i.e. shift packet timing) must leave lifecycle/desync events, connection state and progress to the frame target identical, with floods on live links ending 2.5 s after they started so that 'valid traffic continues to be processed afterwards' is judged after the flood; handshakes still complete. Non-trivial: at least one forged packet was delivered to the victim's session. Distinct: case + trace hash.".into(),
+        rule: "forged packets are built by mutating a copy of the last genuine packet already delivered on the victim's link (so that ack and gossip fields are stale and idempotent) and are put on the wire at the victim's ticks: wrong number of connection statuses (0, n-1, n+1, n+1000; optionally with hostile flags and an ack ahead of the truth), negative start frame (optionally together with disconnect_requested, a 'disconnected' status entry or an ack ahead: the packet must be dropped as a whole), payloads that are random bytes / exhaustive byte strings of length <= 2 / structure-aware mutations of the genuine payload up to 4 KiB / run-length bombs / valid encodings of frames of the wrong size, any packet type from an unknown address, any packet type with a foreign magic. Payloads that the harness's own decoder labels as well-formed spoofs (some frame has exactly the expected size) are not injected (no authentication: outside the property). Protocol states: Running on clean and lossy links (2-3 peers, 1-2 players per peer, windows 0/1/2/8), during the handshake (forged from scratch), after the sender was dropped (incl. exact replays), towards a spectator, and a flood of foreign packets while the real remote is silent; plus garbage/truncated/bit-flipped/length-bomb/oversize datagrams sent over loopback to the library's own UdpNonBlockingSocket (no panic, < 4 MiB allocated per receive call, well-formed messages still delivered). Every campaign runs in a child process under the counting allocator. Verdict: no panic/abort/refused allocation, peak live growth per call within the codec bound; C01/C03/C06 oracles keep holding; against the same scenario without injection: classes rejected before processing must leave request traces, events (with timestamps, per address), errors and states identical; payload classes (which legitimately refresh a resend timer, i.e. shift packet timing) must leave lifecycle/desync events, connection state and progress to the frame target identical, with floods on live links ending 2.5 s after they started so that 'valid traffic continues to be processed afterwards' is judged after the flood; handshakes still complete. Non-trivial: at least one forged packet was delivered to the victim's session. Distinct: case + trace hash.".into(),
         assumptions: {
             let mut a = std_assumptions();
             a.push("UdpNonBlockingSocket is not in the simulated path; it is exercised separately with garbage datagrams over loopback".into());
